@@ -1,15 +1,26 @@
 (* Property C01 - only statements, each closed by [exact].  (partial: see manifest.d/C01.json) *)
 From Coq Require Import ZArith List Bool String.
 Import ListNotations.
-Require Import UV.C01.Model UV.Gen.Stubs UV.C01.MachineProofs UV.C01.StubTheorems UV.C01.Proofs UV.C01.ShadowProofs.
+Require Import UV.C01.Model UV.Gen.Stubs UV.C01.MachineProofs UV.C01.StubTheorems UV.C01.ArchCtxProofs UV.C01.Proofs UV.C01.ShadowProofs.
 Local Open Scope Z_scope.
 
 (* ---- (i) the assembly stubs, as generated from arch/x86_64/*.S of the current tree ----
    [stub_guarantee W regs xmm mem zf ext spec prog] (Machine.v) says about the concrete run of prog
    from ANY register file / xmm file / memory / ZF in ANY world W (= any behaviour of the hooks the
    contract of [c_call] allows): no fault, control leaves to [s_target], every register of [s_pres]
-   and all of xmm0-15 hold their entry values, rsp = rsp0 + s_rsp, and every memory cell at or above
-   rsp0 + s_memfrom except the hijacked slot is unchanged. *)
+   and xmm0-7 (argument/return registers) hold their entry values, rsp = rsp0 + s_rsp, and every memory
+   cell at or above rsp0 + s_memfrom except the hijacked slot is unchanged.
+   The contract for xmm registers is [c_call_xmm]: the C wrappers listed in hook_wrappers (generated
+   from the C text) run the hook body between the generated save/restore pair of ArchCtx.v, so the
+   theorems below also rest on C01_arch_context_roundtrip; the body itself - including any libc code
+   it reaches - may do anything to all sixteen xmm registers. *)
+
+(* every wrapper the stubs call brackets its body with the xmm0-7 pair and with errno save/restore *)
+Theorem C01_hook_wrappers_bracketed :
+  map fst hook_wrappers = ["mcount_entry"; "mcount_exit"; "plthook_entry"; "plthook_exit"; "xray_entry"; "xray_exit"]%string /\
+  forallb (fun p => fst (snd p) && snd (snd p)) hook_wrappers = true.
+Proof. exact hook_wrappers_ok. Qed.
+Print Assumptions C01_hook_wrappers_bracketed.
 
 (* the abstract executor is sound for every program, every 8-byte aligned entry stack pointer *)
 Theorem C01_stub_executor_sound : forall W regs xmm mem zf ext cond sp prog,
@@ -76,7 +87,7 @@ Theorem C01_plt_hooker_to_resolved_function : forall W regs xmm mem zf,
 Proof. exact plt_hooker_direct_ok. Qed.
 Print Assumptions C01_plt_hooker_to_resolved_function.
 
-(* return trampolines of instrumented functions: rax, rdx, xmm0 (with every other xmm register) AND
+(* return trampolines of instrumented functions: rax, rdx, xmm0/xmm1 (with xmm2-7) AND
    all other caller-saved registers (-fipa-ra) preserved; control goes to the address the exit hook
    handed back; nothing at or above the entry rsp is touched *)
 Theorem C01_return_stub_preserves_mcount_return : forall W regs xmm mem zf,
@@ -95,7 +106,7 @@ Theorem C01_return_stub_preserves_dynamic_return : forall W regs xmm mem zf,
 Proof. exact dynamic_return_ok. Qed.
 Print Assumptions C01_return_stub_preserves_dynamic_return.
 
-(* return from an external (PLT) callee / XRay exit sled: plain ABI - rax, rdx, xmm0-15, rdi and the
+(* return from an external (PLT) callee / XRay exit sled: plain ABI - rax, rdx, xmm0-7, rdi and the
    callee-saved registers *)
 Theorem C01_return_stub_preserves_plthook_return : forall W regs xmm mem zf,
   regs RSP mod 8 = 0 ->
